@@ -91,6 +91,22 @@ def directed_program(high):
     return p
 
 
+def second_chance_instances(path):
+    """Sweeps in which evicting only unreferenced entries reaches the low watermark and all of them
+    are needed for it (the case the second-chance clause speaks about, at its boundary)."""
+    n = 0
+    prev = None
+    for ln in open(path):
+        e = json.loads(ln)
+        if prev is not None and e["op"] == "evict" and prev.get("mem", 0) > prev.get("low", 0):
+            un = [x for x in prev["ents"] if not x["ref"]]
+            rest = prev["mem"] - sum(x["sz"] for x in un)
+            if un and rest <= prev["low"] and any(rest + x["sz"] > prev["low"] for x in un):
+                n += 1
+        prev = e
+    return n
+
+
 def _trace_stats(path):
     lines = open(path).read().splitlines()
     hits = tagged_hits = sweeps = 0
@@ -188,6 +204,7 @@ def run_cache_unit(tier, seed, rd, fxv):
                               depth_first=True, coverage=False, xmx="2g")
 
     events = hits = tagged_hits = sweeps = 0
+    sc_instances = sum(second_chance_instances(t) for _, t, _ in jobs)
     for job, r in v.parallel_map(val, jobs, jobs=6):
         tag, trace, argv = job
         lines, h, th, sw = _trace_stats(trace)
@@ -221,6 +238,8 @@ def run_cache_unit(tier, seed, rd, fxv):
             samples.append({"kind": "trace", "tag": tag, "args": " ".join(argv),
                             "events": len(lines), "hits": h, "sweeps_that_evicted": sw,
                             "first_events": [_brief(x) for x in lines[1:4]]})
+    if not violations and sc_instances == 0:
+        raise v.ToolError("vacuity: no sweep in which unreferenced entries (all of them needed) suffice")
     if not violations and (hits == 0 or tagged_hits == 0 or sweeps == 0):
         raise v.ToolError("vacuity: recordings contain %d hits (%d generation-qualified), "
                           "%d evicting sweeps" % (hits, tagged_hits, sweeps))
